@@ -151,6 +151,9 @@ def expr_to_json(e: Any, bindings: dict[str, Any]) -> dict:
         if isinstance(e, prim.Call):
             if not isinstance(e.function, prim.Variable):
                 raise Unsupported("call of non-variable")
+            if e.function.name == "pytato.zero":
+                # documented meaning: zero, whatever the argument (a dependency only)
+                return {"k": "c", "v": 0}
             return {"k": "call", "f": func_id(e.function.name),
                     "fn": e.function.name, "p": [rec(p) for p in e.parameters]}
         if isinstance(e, prim.NaN):
